@@ -519,23 +519,30 @@ def _is_check(x):
     return x[0] == 'call' and (x[1] == 'State::check_0rtt' or path_matches(x[2], 'State::check_0rtt'))
 
 
-def _live_defs(body, d, local, reach, seen=()):
-    """descriptors of the whole-local definitions of `local` lying in `reach` (plain copies followed); None = unknown"""
-    out = []
+def _live_truths(body, d, local, reach, ev, seen=()):
+    """{truth} of a bool local over its whole-local definitions lying in `reach`: plain copies AND negations of another
+    local are followed (`let live = a && !(b && c)` materialises `b && c` in one temporary, `!tmp` in the named bool:
+    `live = Not(tmp)`), every other definition is judged by `ev` on its descriptor; None in the set = unknown"""
+    out = set()
     for df in body.defs_of(local):
-        if df[0] in ('stmt', 'call'):
-            if df[1] not in reach:
-                continue
-            if df[0] == 'call':
-                out.append(d.call_desc(df[2], 0))
-                continue
-            rv = df[3]
-            if rv[0] == 'use' and rv[1][0] in ('c', 'm') and not rv[1][1][1] and rv[1][1][0] not in seen and rv[1][1][0] != local:
-                out.extend(_live_defs(body, d, rv[1][1][0], reach, tuple(seen) + (local,)))
-            else:
-                out.append(d.rvalue(rv, df[1], df[2], 0))
+        if df[0] not in ('stmt', 'call'):
+            out.add(None)
+            continue
+        if df[1] not in reach:
+            continue
+        if df[0] == 'call':
+            out.add(ev(d.call_desc(df[2], 0)))
+            continue
+        rv, neg = df[3], False
+        if rv[0] == 'un' and rv[1] == 'Not':
+            rv, neg = ('use', rv[2]), True
+        if rv[0] == 'use' and rv[1][0] in ('c', 'm') and not rv[1][1][1] and rv[1][1][0] not in seen and rv[1][1][0] != local:
+            sub = _live_truths(body, d, rv[1][1][0], reach, ev, tuple(seen) + (local,))
+            if not sub:
+                sub = {None}      # no live definition at all: unknown
+            out |= {None if v is None else (v != neg) for v in sub}
         else:
-            out.append(None)
+            out.add(ev(d.rvalue(df[3], df[1], df[2], 0)))
     return out
 
 
@@ -583,7 +590,7 @@ def scenario_cut(F, body, is_mark, mark, check, avoid=(), discr_cut=None, decide
             if v is None and reach is not None:
                 op = body.blocks[br.bb]['t'][1]
                 if op[0] in ('c', 'm') and not op[1][1]:
-                    vals = {ev(x) for x in _live_defs(body, d, op[1][0], reach)}
+                    vals = _live_truths(body, d, op[1][0], reach, ev)
                     if len(vals) == 1 and None not in vals:
                         v = vals.pop()
             if v is not None:
@@ -620,7 +627,7 @@ def _op_truth(F, body, op, bb, idx, reach, ev):
     definitions that are live in the scenario"""
     d = describer(F, body)
     if op[0] in ('c', 'm') and not op[1][1]:
-        vals = {ev(x) for x in _live_defs(body, d, op[1][0], reach)}
+        vals = _live_truths(body, d, op[1][0], reach, ev)
         if len(vals) == 1 and None not in vals:
             return vals.pop()
     return ev(d.operand(op, bb, idx))
@@ -691,19 +698,40 @@ def rule_c_finished(ctx):
         ctx.check(okf, 'c', 'finished_stream_fin_requeued', r0, c.where(), 'state == %s: fin_pending of the rewound stream is set on every way through the rewind' % FIN_SENT_VARIANT,
                   'the Retry rewind does not set fin_pending again for a stream finished in 0-RTT (SendState::%s): the FIN that left in the abandoned 0-RTT packet is never retransmitted' % FIN_SENT_VARIANT)
         # (iii) every rewound stream is queued unless is_pending() said it already is ...
-        tests = [(br, t, f) for br, t, f in bool_call_edges(F, r0, 'Send::is_pending') if bool_norm(br.desc)[0][3] and bool_norm(br.desc)[0][3][0] == S]
-        qcut = {br.bb: [f] for br, t, f in tests}
+        # Send::is_pending(S) == S.pending.has_unsent_data() || S.fin_pending (stated structurally, so that the helper may be inlined):
+        # in the scenario `not on the queue yet` the call on S answers false, has_unsent_data() of S's buffer answers false and a
+        # read of S.fin_pending yields false - all three sampled before the rewind / the FIN mark (checked below for each form).
+        def _is_call(x, name):
+            return x[0] == 'call' and (x[1] == name or path_matches(x[2], name)) and bool(x[3])
+
+        def not_queued(x):
+            if _is_call(x, 'Send::is_pending') and x[3][0] == S:
+                return False
+            if _is_call(x, 'SendBuffer::has_unsent_data') and x[3][0] == ('field', S, 'pending'):
+                return False
+            if x == ('field', S, 'fin_pending'):
+                return False
+            return None
+        _, qcut = scenario_cut(F, r0, lambda x: False, False, None, decide=not_queued)
         push = {k.bb for k in r0.calls_to('PendingStreamsQueue::push_pending')}
         okq = bool(push) and (path_avoiding_cut(r0, [start], [c.bb], push, qcut) is None or path_avoiding_cut(r0, r0.succ[c.bb], stops, push, qcut) is None)
         ctx.check(okq, 'c', 'rewound_stream_queued', r0, c.where(), 'every rewound stream whose is_pending() is false goes through push_pending',
                   'a stream rewound after a Retry is not put on the pending queue although is_pending() was false: its data / FIN is never scheduled')
-        # ... and is_pending() is sampled before the rewind and the FIN mark make it true
+        # ... and is_pending() (or the state it reads) is sampled before the rewind and the FIN mark make it true
+        samples = [(k.bb, None) for k in r0.calls_to('Send::is_pending') if arg_desc(F, k, 0) == S] + \
+                  [(k.bb, None) for k in r0.calls_to('SendBuffer::has_unsent_data') if arg_desc(F, k, 0) == ('field', S, 'pending')]
+        for bb, idx, st in r0.stmts():
+            if st[0] == '=' and st[2][0] == 'use' and st[2][1][0] in ('c', 'm') and st[2][1][1][1] and st[2][1][1][1][-1][:2] == ['f', 'fin_pending'] \
+                    and d.operand(st[2][1], bb, idx) == ('field', S, 'fin_pending'):
+                samples.append((bb, idx))
         late = []
-        for k in r0.calls_to('Send::is_pending'):
-            if arg_desc(F, k, 0) != S:
-                continue
-            for m_bb, frm in [(c.bb, r0.succ[c.bb])] + [(w.bb, [w.bb]) for w in marks]:
-                if path_avoiding(r0, frm, [k.bb], stops) is not None:
+        for k_bb, k_idx in samples:
+            for m_bb, m_idx, frm in [(c.bb, None, r0.succ[c.bb])] + [(w.bb, w.idx, [w.bb]) for w in marks]:
+                if k_idx is not None and m_idx is not None and k_bb == m_bb:
+                    # a read in the block of the store: late when it follows the store (or comes round to it again within the iteration)
+                    if k_idx > m_idx or path_avoiding(r0, r0.succ[m_bb], [k_bb], stops) is not None:
+                        late.append(m_bb)
+                elif path_avoiding(r0, frm, [k_bb], stops) is not None:
                     late.append(m_bb)
         ctx.check(not late, 'c', 'queue_test_precedes_marking', r0, c.where(), 'is_pending() of the rewound stream is not evaluated after the rewind / a fin_pending store of the same iteration',
                   'is_pending() is evaluated after the %s of the same stream: it then answers true for a stream that is not on the pending queue, which is never scheduled' % ('rewind' if c.bb in late else 'fin_pending store'))
